@@ -214,7 +214,6 @@ class StmtMixin:
                 elif isinstance(h.type, ast.Name): names = [h.type.id]
                 else: raise VCError("except form")
                 if names is None or v in names or "Exception" in names:
-                    if h.name: raise VCError("except ... as name")
                     yield from self.exec_block(h.body, s1)
                     handled = True; break
             if not handled: yield kind, s1, v
